@@ -436,6 +436,13 @@ func (fr *Frame) builtin(in ssa.Instruction, b *ssa.Builtin, args []Val, resT ty
 		return e.freshVal(resT, "recover", fr.pc)
 	case "close":
 		e.flag("chan-close")
+		// ghost: the set of closed channels (closed(ch) in contracts)
+		if len(args) == 1 && args[0].S != "" {
+			srt := arrSort(sRef, sBool)
+			e.keySort["X:chclosed"] = srt
+			cur := e.heapGet(fr.st, "X:chclosed", srt)
+			e.heapSet(fr.st, "X:chclosed", srt, mkIte(fr.pc, sto(cur, args[0].S, "true"), cur))
+		}
 		return Val{}
 	case "min", "max":
 		if w, signed, ok := intInfo(resT); ok && len(args) >= 1 {
